@@ -353,6 +353,7 @@ Fixpoint canon (sp : bool) (v : pv) {struct v} : herr + pv :=
            | (25 sp value)                            -> (0 value) | (1 e)       utils.canonicalize
            | (26 fck sp value)                        -> (0 value) | (1 e)       canonicalize(flatten(value))
            | (27 mode dest src)                       -> (0 value) | (1 e)       merge_tree (mode 0: merge_fn=None)
+           | (28 path value)                          -> (0 b) | (1 e)           KeyPath.exists (only KeyError means absent)
    ev    ::= (0 path value) | (1 path value)      (pre / post)
    sel   ::= (0 (path ...)) | (1) ints | (2) non-empty containers | (3) everything | (4) leaves *)
 Fixpoint e_pv (v : pv) : tr :=
@@ -453,6 +454,16 @@ Definition run (c : tr) : tr :=
       match dbool f, dbool s, d_pv FUEL v with
       | Some bf, Some bs, Some x => e_res (canon bs (flatten bf x))
       | _, _, _ => ebad
+      end
+  | L [I 28; p; v] =>
+      match dpath p, d_pv FUEL v with
+      | Some ks, Some x =>
+          match lookup x ks with
+          | inr _ => L [I 0; ebool true]
+          | inl HKeyError => L [I 0; ebool false]
+          | inl e => e_herr e
+          end
+      | _, _ => ebad
       end
   | L [I 27; I 0; d; s] =>
       match d_pv FUEL d, d_pv FUEL s with Some x, Some y => e_res (merge_plain x y) | _, _ => ebad end
